@@ -94,12 +94,16 @@ type run struct {
 	allocCtr int
 	atomic   bool // detected: Put holds the lock across the copy
 
+	gcCur *gthr // the GC goroutine while it is the one running
+	gcThr *gthr // the GC call in progress (parked between two of its steps)
+
 	everReversed bool   // some Put persisted while an earlier-allocated one was still in flight
 	restartAfter string // "", "reopen", "crash": last restart after a reversal
 	gcAfterRev   bool
 	conc         bool
 	tmp          []string
 	gotOK        bool
+	bulk         []bulk
 }
 
 func (r *run) cleanup() {
@@ -143,6 +147,8 @@ func (r *run) opNew() {
 	r.tmp = append(r.tmp, dir)
 	r.ctl = newCtl(dir)
 	r.ctl.park = r.park
+	r.ctl.gcPark = r.gcPark
+	r.gcThr, r.gcCur = nil, nil
 	r.want = map[int64][]byte{}
 	r.ths = map[int]*thr{}
 	r.everReversed, r.restartAfter, r.gcAfterRev = false, "", false
@@ -417,6 +423,170 @@ func short(b []byte) string {
 	return hex.EncodeToString(b)
 }
 
+// ---- Put under an AcquirePage fault, bulk Put
+
+// opPutFail: Put while the next AcquirePage on the data factory fails (fires only on a roll-over).
+func (r *run) opPutFail(m msg) {
+	op := "putfail" + m.sfx() + " " + m.arg()
+	before := r.q.AppendedSeq()
+	r.c.Guard(op, func() string {
+		r.ctl.failDataAcquire, r.ctl.failFired = true, false
+		err := r.q.Put(m.data)
+		r.ctl.failDataAcquire = false
+		switch {
+		case errors.Is(err, errInjected):
+			r.c.Branch("put-acquire-failed")
+			if a := r.q.AppendedSeq(); a != before {
+				r.c.Fail("failed-put-moved-appended", fmt.Sprintf("Put returned the AcquirePage error, appended went %d -> %d", before, a))
+			}
+			return "err acquire " + r.qstate()
+		case err != nil:
+			return putErr(err)
+		}
+		seq := r.q.AppendedSeq()
+		if seq != before+1 {
+			r.c.Fail("seq-not-dense", fmt.Sprintf("Put returned nil, appended went %d -> %d", before, seq))
+		}
+		r.want[seq] = m.data
+		r.c.Branch("put-ok-under-armed-fault")
+		return fmt.Sprintf("ok seq=%d %s", seq, r.curStr())
+	})
+	r.check("putfail")
+}
+
+// opPutN: n Puts of the same small message; the oracle keeps a sample of the sequences and
+// scanAll reads every one of them back once.
+func (r *run) opPutN(n int, m msg, rng *rand.Rand) {
+	op := fmt.Sprintf("putn %d %s", n, m.arg())
+	before := r.q.AppendedSeq()
+	r.c.Guard(op, func() string {
+		for i := 0; i < n; i++ {
+			if err := r.q.Put(m.data); err != nil {
+				return putErr(err)
+			}
+		}
+		seq := r.q.AppendedSeq()
+		if seq != before+int64(n) {
+			r.c.Fail("seq-not-dense", fmt.Sprintf("%d Puts returned nil, appended went %d -> %d", n, before, seq))
+		}
+		for i := 0; i < 64 && i < n; i++ {
+			s := before + 1 + int64(i)
+			if i >= 8 && i < 56 {
+				s = before + 1 + int64(rng.Intn(n))
+			} else if i >= 56 {
+				s = seq - int64(63-i)
+			}
+			r.want[s] = m.data
+		}
+		r.bulk = append(r.bulk, bulk{before + 1, seq, m.data})
+		r.c.Branch("put-bulk")
+		if n == 0 {
+			return "ok none"
+		}
+		return fmt.Sprintf("ok seq=%d %s", seq, r.curStr())
+	})
+	r.check("putn")
+}
+
+type bulk struct {
+	lo, hi int64
+	data   []byte
+}
+
+// scanAll reads back every sequence of the bulk Puts that is above the acknowledged position.
+func (r *run) scanAll(after string) {
+	ack := r.q.AcknowledgedSeq()
+	bad := 0
+	for _, b := range r.bulk {
+		for s := b.lo; s <= b.hi; s++ {
+			if s <= ack {
+				continue
+			}
+			got, err := r.q.Get(s)
+			if err != nil || !bytes.Equal(got, b.data) {
+				bad++
+				if bad <= 3 {
+					r.c.Fail("returned-put-lost-or-altered", fmt.Sprintf("after %s: sequence %d (ack=%d): err=%v got %s want %s", after, s, ack, err, short(got), short(b.data)))
+				}
+			}
+		}
+	}
+}
+
+// ---- GC as a second goroutine parked between its steps
+
+type gthr struct {
+	parked chan string
+	resume chan struct{}
+	done   chan struct{}
+}
+
+func (r *run) gcPark(point string) {
+	t := r.gcCur
+	if t == nil {
+		return // Get / GC on the harness's own goroutine
+	}
+	t.parked <- point
+	<-t.resume
+}
+
+// gcAdvance lets the GC goroutine run to its next parking point (or to its end).
+func (r *run) gcAdvance(t *gthr, start bool) string {
+	r.gcCur = t
+	if start {
+		q := r.q
+		go func() {
+			debug.SetPanicOnFault(true)
+			defer func() {
+				_ = recover()
+				close(t.done)
+			}()
+			q.GC()
+		}()
+	} else {
+		t.resume <- struct{}{}
+	}
+	st := "done"
+	select {
+	case <-t.parked:
+		st = "parked"
+	case <-t.done:
+		r.gcThr = nil
+	case <-time.After(stuck):
+		panic("harness: GC goroutine neither parked nor finished")
+	}
+	r.gcCur = nil
+	return fmt.Sprintf("ok %s data=%s index=%s", st, listPages(filepath.Join(r.dir, "data")), listPages(filepath.Join(r.dir, "index")))
+}
+
+func (r *run) opGCStep(name string) {
+	r.c.Guard(name, func() string {
+		if name == "g-snap" {
+			if r.gcThr != nil {
+				return "not-enabled"
+			}
+			r.gcThr = &gthr{parked: make(chan string), resume: make(chan struct{}), done: make(chan struct{})}
+			return r.gcAdvance(r.gcThr, true)
+		}
+		if r.gcThr == nil {
+			return "not-enabled"
+		}
+		return r.gcAdvance(r.gcThr, false)
+	})
+	r.c.Branch(name)
+	if r.everReversed {
+		r.gcAfterRev = true
+	}
+	r.check(name)
+}
+
+// finishGC lets a GC call in progress run to its end.
+func (r *run) finishGC() {
+	for r.gcThr != nil {
+		r.gcAdvance(r.gcThr, false)
+	}
+}
+
 // ---- scheduled interleavings
 
 func (r *run) park(phase string) {
@@ -614,6 +784,7 @@ func (a area) Run(c *core.Ctx) error {
 					c.Fail("harness-panic", fmt.Sprint(p))
 				}
 				r.drainQuiet()
+				func() { defer func() { _ = recover() }(); r.finishGC() }()
 				r.cleanup()
 			}()
 			rng := c.Rng(i)
@@ -626,13 +797,31 @@ func (a area) Run(c *core.Ctx) error {
 				r.witnessGC()
 			case i == 3:
 				r.bigCase(rng)
+			case i == 4:
+				r.gcOverlapCase(rng, true)
+			case i == 5:
+				r.boundaryCase(rng, 1, 0)
+			case c.Tier == "thorough" && i >= 6 && i <= 9:
+				// one below / one above the index page boundary, the second boundary, GC overlap with pending messages
+				switch i {
+				case 6:
+					r.boundaryCase(rng, 1, -1)
+				case 7:
+					r.boundaryCase(rng, 1, 1)
+				case 8:
+					r.boundaryCase(rng, 2, 0)
+				default:
+					r.gcOverlapCase(rng, false)
+				}
 			default:
 				big := (c.Tier == "thorough" && i%50 == 7)
 				switch k := rng.Intn(100); {
 				case big:
 					r.bigCase(rng)
-				case k < 55:
+				case k < 48:
 					r.seqCase(rng)
+				case k < 60:
+					r.gcStepCase(rng)
 				case k < 80:
 					r.concCase(rng, false)
 				default:
@@ -737,8 +926,10 @@ func (r *run) seqCase(rng *rand.Rand) {
 	n := 4 + rng.Intn(30)
 	for j := 0; j < n && r.q != nil; j++ {
 		switch k := rng.Intn(100); {
-		case k < 40:
+		case k < 36:
 			r.opPut(randMsg(rng))
+		case k < 40:
+			r.opPutFail(randMsg(rng))
 		case k < 58:
 			r.randGet(rng)
 		case k < 66:
@@ -781,6 +972,11 @@ func (r *run) bigCase(rng *rand.Rand) {
 	f := dataPageSize - b - 33 - 20
 	r.opPut(gen(11, f)) // page 1 has 20 bytes left
 	m64 := lit(randBytes(rng, 64))
+	// a roll-over whose AcquirePage fails: the Put returns the error and must leave the queue as it
+	// was; a smaller append that still fits the old page and the retried roll-over must read back
+	r.opPutFail(m64)
+	r.opPut(lit(randBytes(rng, 10)))
+	r.opGet(r.q.AppendedSeq())
 	if r.c.Tier == "thorough" {
 		r.opCrashPut(10, m64) // rolls to page 2, dies inside the copy
 	}
@@ -792,6 +988,7 @@ func (r *run) bigCase(rng *rand.Rand) {
 	r.opGet(4)
 	r.opGet(5)
 	r.opGet(6)
+	r.opGet(7)
 	r.opPut(gen(0, dataPageSize+1)) // rejected
 	if r.c.Tier == "thorough" {
 		r.opPut(gen(1, dataPageSize)) // exactly one page: rolls, fills page 3
@@ -880,4 +1077,98 @@ func (r *run) concCase(rng *rand.Rand, restart bool) {
 	for s := r.q.AcknowledgedSeq(); s <= r.q.AppendedSeq()+1; s++ {
 		r.opGet(s)
 	}
+}
+
+// gcOverlapCase: one GC call parked between its steps (at indexPageFct.GetPage, then at the two
+// TruncatePages) while Puts complete — the first stays in the current data page, the second
+// rolls over. drained=true: everything is acknowledged when GC reads the acknowledged sequence.
+func (r *run) gcOverlapCase(rng *rand.Rand, drained bool) {
+	r.c.Branch("case-gc-overlapped-by-rollover")
+	r.opNew()
+	r.opPut(gen(rng.Intn(100), dataPageSize-20-rng.Intn(8)))
+	if !drained {
+		r.opPut(lit(randBytes(rng, 4)))
+	}
+	r.opAck(0)
+	r.opGCStep("g-snap")
+	r.opPut(lit(randBytes(rng, 8))) // still fits page 0
+	r.opPut(gen(3, 64))             // rolls to page 1
+	r.c.Branch("rollover")
+	r.opGCStep("g-read")
+	r.opGCStep("g-truncdata")
+	r.opGCStep("g-truncindex")
+	for s := r.q.AcknowledgedSeq(); s <= r.q.AppendedSeq(); s++ {
+		r.opGet(s)
+	}
+	r.opAck(r.q.AppendedSeq() - 1)
+	r.opGCStep("g-snap")
+	r.opGCStep("g-read")
+	r.opPut(lit(randBytes(rng, 5)))
+	r.opGCStep("g-truncdata")
+	r.opGCStep("g-truncindex")
+	r.opReopen()
+	for s := r.q.AcknowledgedSeq(); s <= r.q.AppendedSeq(); s++ {
+		r.opGet(s)
+	}
+}
+
+// gcStepCase: small messages, GC calls split into their steps and interleaved with puts, acks, gets.
+func (r *run) gcStepCase(rng *rand.Rand) {
+	r.c.Branch("case-gc-steps-interleaved")
+	r.opNew()
+	steps := []string{"g-snap", "g-read", "g-truncdata", "g-truncindex"}
+	next := 0
+	n := 6 + rng.Intn(30)
+	for j := 0; j < n && r.q != nil; j++ {
+		switch k := rng.Intn(100); {
+		case k < 35:
+			r.opPut(randMsg(rng))
+		case k < 50:
+			r.randGet(rng)
+		case k < 65:
+			app, ack := r.q.AppendedSeq(), r.q.AcknowledgedSeq()
+			r.opAck(ack + int64(rng.Intn(int(app-ack)+1)))
+		case k < 92:
+			if r.gcThr == nil {
+				next = 0
+			}
+			r.opGCStep(steps[next])
+			next = (next + 1) % 4
+		default:
+			if r.gcThr == nil {
+				r.opReopen()
+			}
+		}
+	}
+	r.finishGC()
+	if r.q != nil {
+		for s := r.q.AcknowledgedSeq(); s <= r.q.AppendedSeq()+1; s++ {
+			r.opGet(s)
+		}
+	}
+}
+
+// boundaryCase: exactly k*indexItemsPerPage+d one-byte messages, close/reopen at that point, one
+// more append, then every earlier sequence is read back (index page boundary of the reopen path).
+func (r *run) boundaryCase(rng *rand.Rand, k, d int) {
+	r.c.Branch(fmt.Sprintf("case-index-page-boundary-%d%+d", k, d))
+	const itemsPerPage = 1024 * 256
+	r.opNew()
+	n := k*itemsPerPage + d
+	r.opPutN(n, lit([]byte{byte(0x41 + rng.Intn(20))}), rng)
+	r.opGet(0)
+	r.opReopen()
+	r.opPut(lit(randBytes(rng, 3)))
+	r.opGet(0)
+	r.opGet(1)
+	r.opGet(int64(n) - 1)
+	r.opGet(int64(n))
+	r.scanAll("reopen at the index page boundary + 1 append")
+	r.opPut(lit(randBytes(rng, 2)))
+	r.opAck(int64(n) - 2)
+	r.opGC()
+	r.opGet(int64(n) - 1)
+	r.opGet(int64(n) + 1)
+	r.opReopen()
+	r.opGet(int64(n) + 1)
 }
